@@ -3,10 +3,23 @@
     Secs2/Decode.v on EVERY owned buffer, start position, position, element width and length field:
     same error class, same values (scalar and slice representation, [uint_item_of] / [int_item_of]),
     position advanced by the length, raw bytes [owned[startPos:pos+length]] retained — and no
-    panic on any byte slice. Only [exact] + [Print Assumptions]. *)
+    panic on any byte slice.
+
+    [decodeFloatItem] likewise (floats are IEEE bit patterns on both sides; the float32 -> float64
+    widening is [go_f32_widen] = the model's [f32_widen]).
+
+    [decodeItem] — the recursive decoder, regenerated as a [Fixpoint] on an explicit fuel (out of
+    fuel = panic) over the generated mutual item type ([Item] with [Item_ListItem] holding a
+    [list Item]) — against [Secs2/Decode.decode_item] / [decode]: for EVERY buffer shorter than
+    2^31, every start position and every Go fuel >= 65, no panic; when the model decodes a tree the
+    Go code returns nil error, the same end position (= same consumed prefix / same rest) and an
+    item in relation [repr] with the model tree (same shape, same leaf values, same widths); when
+    the model refuses, the Go code returns a nil item and a non-nil error.
+    Only [exact] + [Print Assumptions]. *)
 From Coq Require Import String.
 From Coq Require Import ZArith Bool List Lia.
-From GoSecs Require Import Base.GoInt Base.BytesBE Base.GoSlice Gen.Gen2 Secs2.Item Secs2.Decode Gen.Bridge2Secs2Decode.
+From GoSecs Require Import Base.GoInt Base.BytesBE Base.GoSlice Gen.Gen2 Secs2.Item Secs2.Decode Secs2.DecodeChkProofs
+  Gen.Bridge2Secs2Decode Gen.Bridge2Secs2DecodeItem.
 Import ListNotations.
 Open Scope Z_scope.
 Import Gen2.secs2.
@@ -29,3 +42,37 @@ Theorem tie_secs2_decodeIntItem : forall owned sp pos w len slab,
   GOk (int_result owned sp pos len w (decode_num KInt w len (skipn (Z.to_nat pos) owned))).
 Proof. exact bridge_decodeIntItem. Qed.
 Print Assumptions tie_secs2_decodeIntItem.
+
+Theorem tie_secs2_decodeFloatItem : forall owned sp pos w len slab,
+  float_width w = true ->
+  bytes_ok owned -> go_len owned < 2 ^ 62 -> 0 <= sp <= pos -> pos <= go_len owned -> 0 <= len < 2 ^ 31 ->
+  decodeFloatItem owned sp pos (wz w) len slab =
+  GOk (float_result owned sp pos len w (decode_num KFloat w len (skipn (Z.to_nat pos) owned))).
+Proof. exact bridge_decodeFloatItem. Qed.
+Print Assumptions tie_secs2_decodeFloatItem.
+
+Theorem tie_secs2_decodeItem_at : forall owned slab pos gf,
+  bytes_ok owned -> zlen owned < 2 ^ 31 -> 0 <= pos <= zlen owned -> (65 <= gf)%nat ->
+  match decode_item (S (length (sfx owned pos))) 0 (sfx owned pos) with
+  | Ok (y, rest) => exists pos' it, pos <= pos' <= zlen owned /\ rest = sfx owned pos' /\
+                                    decodeItem gf owned pos 0 slab = GOk (it, pos', ErrNil) /\ repr y it
+  | Err e => exists p e', decodeItem gf owned pos 0 slab = GOk (Item_nil, p, e') /\ e' <> ErrNil
+  end.
+Proof. exact bridge_decodeItem_at. Qed.
+Print Assumptions tie_secs2_decodeItem_at.
+
+Theorem tie_secs2_decodeItem : forall owned slab gf,
+  bytes_ok owned -> zlen owned < 2 ^ 31 -> owned <> [] -> (65 <= gf)%nat ->
+  match decode owned with
+  | Ok (y, rest) => exists pos' it, 0 <= pos' <= zlen owned /\ rest = skipn (Z.to_nat pos') owned /\
+                                    decodeItem gf owned 0 0 slab = GOk (it, pos', ErrNil) /\ repr y it
+  | Err e => exists p e', decodeItem gf owned 0 0 slab = GOk (Item_nil, p, e') /\ e' <> ErrNil
+  end.
+Proof. exact bridge_decodeItem. Qed.
+Print Assumptions tie_secs2_decodeItem.
+
+Theorem tie_secs2_decodeItem_no_panic : forall owned slab gf,
+  bytes_ok owned -> zlen owned < 2 ^ 31 -> owned <> [] -> (65 <= gf)%nat ->
+  decodeItem gf owned 0 0 slab <> GPanic.
+Proof. exact decodeItem_no_panic. Qed.
+Print Assumptions tie_secs2_decodeItem_no_panic.
